@@ -17,7 +17,6 @@ the instant of the last element, late, or never).  For each case
 from __future__ import annotations
 
 import datetime
-import math
 import time
 
 from .. import core, vt
@@ -41,8 +40,9 @@ META = {
 RULE = (
     "all (rule, parameters, timeline, form) with rule in {count,time,time-or-count,boundary,when,toggle}, parameters from the tier's "
     "tables, timeline = distinct-valued elements on every subset (size<=N) of slots 10..10*M (+ burst variants) x terminal "
-    "{C,E at +10 / same instant / +25(thorough), never}, form in {window, buffer}; non-trivial = the source emitted >=1 element and "
-    "(>=2 windows were emitted or a window was closed by its rule before the source's terminal); distinct = (rule, parameters, timeline, form)"
+    "{C,E at +10 / same instant, C at +25 (thorough), never}, form in {window, buffer}; non-trivial = the source emitted >=1 element and "
+    "(>=2 windows were emitted or a window was closed by its rule before the source's terminal), buffer form: >=2 lists of which >=1 "
+    "non-empty; distinct = (rule, parameters, timeline, form)"
 )
 BUDGET = {"quick": 150.0, "thorough": 1500.0}
 
@@ -304,9 +304,6 @@ def generic_problems(env, src, out, inner, status):
             break
     if env.sched.escaped:
         probs.append(("exception-escaped", f"exception escaped into the scheduler: {env.sched.escaped[0][1]!r}"))
-    e = L.error_identity_problem(src, [x[3] for x in inner])
-    if e:
-        probs.append(("error-identity", e))
     return probs
 
 
@@ -398,9 +395,6 @@ def judge_buffer(rule, p, tl, win=None):
         probs.append(("not-a-list", f"buffer emitted {bad_type[0]!r}"))
     if act != exp:
         probs.append(("differs-from-windows", f"buffers {show_buf(act)} but the windows of the window form give {show_buf(exp)}"))
-    term = rec.terminal()
-    if term and term[2] == "E" and not any(term[3] is e for e in src.errors.values()):
-        probs.append(("error-identity", f"buffer ended with {term[3]!r}, not the source's error"))
     nontrivial = sum(1 for e in exp if e[1] == "N" and e[2][1]) >= 1 and sum(1 for e in exp if e[1] == "N") >= 2
     return probs, act, nontrivial
 
@@ -519,8 +513,8 @@ def timelines(tier, seed):
                 yield tl + [(last + 10, term, tv)]
                 if times:
                     yield tl + [(last, term, tv)]
-                if not q:
-                    yield tl + [(last + 25, term, tv)]
+                if not q and term == "C":
+                    yield tl + [(last + 25, term, tv)]  # late completion: trailing empty windows
 
 
 def all_cases(tier, seed):
